@@ -262,6 +262,129 @@ def _minimal_polarity(ctx, qf, body_fn, delims_name, map_name, via=''):
     return found
 
 
+UNRESERVED = frozenset('ABCDEFGHIJKLMNOPQRSTUVWXYZabcdefghijklmnopqrstuvwxyz0123456789-._~')
+
+
+def _regex_only_unreserved(pattern, method):
+    """The regex test `<pattern>.<method>(text)` succeeds only on strings made of unreserved characters: the pattern is
+    [^]? <one character class, repeated> <end>, where <end> is \\Z for match() (`$` also matches before a trailing newline)
+    and \\Z, `$`-free or nothing for fullmatch().  -> (True, '') or (False, reason)."""
+    import re._parser as P
+    import re._constants as C
+    try:
+        items = list(P.parse(pattern))
+    except Exception as e:
+        return False, 'pattern does not parse: %s' % e
+    if items and items[0][0] is C.AT and items[0][1] in (C.AT_BEGINNING, C.AT_BEGINNING_STRING):
+        items = items[1:]
+    elif method == 'search':
+        return False, 'search() without a start anchor'
+    end = None
+    if items and items[-1][0] is C.AT:
+        end = items[-1][1]
+        items = items[:-1]
+    if method in ('match', 'search'):
+        if end is None:
+            return False, 'match() without an end anchor tests a prefix only'
+        if end is not C.AT_END_STRING:
+            return False, '`$` also matches before a trailing newline: a text ending in "\\n" passes the test (use \\Z or fullmatch)'
+    elif end is not None and end is not C.AT_END_STRING and method != 'fullmatch':
+        return False, 'unrecognised end anchor'
+    if len(items) != 1 or items[0][0] not in (C.MAX_REPEAT, C.MIN_REPEAT):
+        return False, 'not a single repeated character class'
+    lo, hi, sub = items[0][1]
+    sub = list(sub)
+    if len(sub) != 1:
+        return False, 'not a single repeated character class'
+    op, av = sub[0]
+    chars = set()
+    if op is C.LITERAL:
+        chars.add(chr(av))
+    elif op is C.IN:
+        for o2, a2 in av:
+            if o2 is C.LITERAL:
+                chars.add(chr(a2))
+            elif o2 is C.RANGE:
+                if a2[1] - a2[0] > 300:
+                    return False, 'character range too wide'
+                chars |= {chr(c) for c in range(a2[0], a2[1] + 1)}
+            else:
+                return False, 'character class with %s' % (o2,)
+    else:
+        return False, 'not a character class'
+    extra = chars - UNRESERVED
+    if extra:
+        return False, 'the class admits %r, which are not unreserved characters' % ''.join(sorted(extra))
+    return True, ''
+
+
+def check_raw_returns(ctx, qf, body, text_param):
+    """T26.raw: a quote function hands the text back unquoted only under a test that is shown to admit nothing but unreserved
+    characters (which every quote map keeps): the empty-text test, or a whole-string regex test over a class of unreserved
+    characters.  Any other guard -- a regex ending in `$`, a prefix match, isalnum() (true for non-ASCII letters) -- lets a
+    character through that full quoting must escape."""
+    mod = body.module
+    fold = Folder(mod)
+    par = {}
+    for n in ast.walk(body.node):
+        for c in ast.iter_child_nodes(n):
+            par[c] = n
+
+    def raw(e):
+        if isinstance(e, ast.Name) and e.id == text_param:
+            return True
+        return isinstance(e, ast.Call) and call_name(e) in ('str', 'to_unicode') and len(e.args) == 1 and raw(e.args[0])
+
+    def proves(test, positive):
+        """the test having this outcome implies `text` has only unreserved characters"""
+        e = test
+        while isinstance(e, ast.UnaryOp) and isinstance(e.op, ast.Not):
+            e, positive = e.operand, not positive
+        if isinstance(e, ast.BoolOp) and isinstance(e.op, ast.And) and positive:
+            res = [proves(v, True) for v in e.values]
+            if any(r[0] for r in res):
+                return True, ''
+            why = [r[1] for r in res if r[1]]
+            return False, why[0] if why else ''
+        if isinstance(e, ast.Name) and e.id == text_param and not positive:
+            return True, ''                                   # `if not text: return text`
+        if isinstance(e, ast.Call) and isinstance(e.func, ast.Attribute) and e.func.attr in ('match', 'fullmatch', 'search') and positive \
+                and e.args and raw(e.args[-1]):
+            pat = None
+            recv = e.func.value
+            try:
+                if isinstance(recv, ast.Name) and recv.id == 're' and len(e.args) == 2:
+                    pat = fold.fold(e.args[0])
+                elif isinstance(recv, ast.Name):
+                    ce = mod.const_expr(recv.id)
+                    if isinstance(ce, ast.Call) and call_name(ce) == 're.compile' and ce.args and len(ce.args) == 1 and not ce.keywords:
+                        pat = fold.fold(ce.args[0])
+            except Unknown:
+                pat = None
+            if not isinstance(pat, str):
+                return False, 'the regex of `%s` could not be evaluated' % txt(e)
+            return _regex_only_unreserved(pat, e.func.attr)
+        if isinstance(e, ast.Call) and isinstance(e.func, ast.Attribute) and e.func.attr in ('isalnum', 'isalpha', 'isdigit', 'isidentifier') \
+                and positive:
+            return False, '%s() is true for non-ASCII letters / digits too' % e.func.attr
+        return False, ''
+    for r in ast.walk(body.node):
+        if not (isinstance(r, ast.Return) and r.value is not None and raw(r.value)):
+            continue
+        # the tests this return is nested under
+        ok, why = False, ''
+        n = r
+        while n in par and not ok:
+            up = par[n]
+            if isinstance(up, ast.If):
+                ok, w2 = proves(up.test, n in up.body)
+                why = why or w2
+            n = up
+        ctx.ob('T26.raw', qf.fq, 'the text is handed back unquoted only under a test that admits nothing but unreserved characters', ok,
+               loc='%s:%d' % (mod.relpath, r.lineno), detail=why or 'no enclosing test shown to imply "only unreserved characters"')
+
+
+
 def check_quote_shape(ctx, qf, names):
     """full mode: per *byte* of the NFC-normalised UTF-8 encoding, through the map;
     minimal mode: only characters in DELIMS go through the map. The body may live in a
@@ -297,6 +420,8 @@ def check_quote_shape(ctx, qf, names):
                 ctx.ob('T12.shape', qf.fq, 'full quoting maps every byte of the UTF-8 encoding through the quote map, minimal quoting only the '
                        'component\'s delimiters' + via, has_full and bool(enc) and uses_map and uses_delims, loc=qf.loc)
                 _minimal_polarity(ctx, qf, callee, inv.get(names['delims'], '?'), inv.get(names['map'], '?'), via)
+                check_raw_returns(ctx, qf, callee, inv.get('text', 'text'))
+                check_raw_returns(ctx, qf, qf, 'text')
                 return
     has_full = any(isinstance(n, (ast.If, ast.IfExp)) and txt(n.test) == 'full_quote' for n in ast.walk(qf.node))
     enc = [n for n in ast.walk(qf.node) if isinstance(n, ast.Call) and isinstance(n.func, ast.Attribute)
@@ -307,6 +432,7 @@ def check_quote_shape(ctx, qf, names):
     ctx.ob('T12.shape', qf.fq, 'full quoting maps every byte of the UTF-8 encoding through the quote map '
            '(branch on full_quote present, utf-8 encode present)', has_full and bool(enc), loc=qf.loc)
     _minimal_polarity(ctx, qf, qf, names['delims'], names['map'])
+    check_raw_returns(ctx, qf, qf, qf.params[0] if qf.params else 'text')
 
 
 def check_make_quote_map(ctx, fn):
